@@ -152,14 +152,6 @@ def fit (c : Csr Rat) (values : List Int) (a : PropArgs) (fuel : Nat) : Option (
   let cw := withWeights c a.weighted
   propLoop (fun l => voteUpdate cw l index) (fun l => config l index) fuel a.nIter 0 [] labels0
 
-/-- `normalize(adjacency.dot(get_membership(labels)))`: row `i` over the label columns `0 … nLabels-1` -/
-def probsRow (c : Csr Rat) (labels : List Int) (i : Nat) : List Rat :=
-  let k := nLabels labels
-  let raw := tab k fun l => ((c.row i).filter fun (e : Nat × Rat) => labels.getD e.1 (-1) == (l : Int)).foldl
-    (fun s e => s + e.2) 0
-  let norm := raw.foldl (fun s x => s + (if x < 0 then -x else x)) 0
-  if norm == 0 then raw else raw.map (· / norm)
-
 /-! ### the kernel before the repair of F2 (checked accesses) -/
 namespace Pinned
 
